@@ -262,7 +262,7 @@ func c06Derivations(thorough bool) (full, reduced []string) {
 var c06Tokens = []string{"/", "?", "{", "}", ":", ",", " ", "a", "**", "/x|y/", "/[ab]{1, 2}/", "\t"}
 
 func c06Run(r *core.Run) {
-	r.Rule = "engine E: (a) ALL strings up to length L over 17 grammar characters; (b) all token sequences up to T tokens over 12 tokens, explored as a tree that is cut below a string that is not a viable prefix of the grammar (so every accepted string and every first-error string up to T tokens is executed); (c) all derivations of the grammar up to 3 segments / 2 elements / 2 parameters with 0-2 blanks; (d) every single-token deletion, insertion and replacement of derivations; (e) every byte 0..255 and every byte pair inside each token class; oracle: no panic, accept iff the reference recursive-descent recogniser of the README grammar accepts, AST equals the derivation, String() equals the input with blanks normalised, Parse(String()) gives the same structure and String() is idempotent; non-trivial = accepted string"
+	r.Rule = "engine E: (0) routes of 100..5000 bytes interleaved with ordinary ones on one parser; (a) ALL strings up to length L over 17 grammar characters; (b) all token sequences up to T tokens over 12 tokens, explored as a tree that is cut below a string that is not a viable prefix of the grammar (so every accepted string and every first-error string up to T tokens is executed); (c) all derivations of the grammar up to 3 segments / 2 elements / 2 parameters with 0-2 blanks; (d) every single-token deletion, insertion and replacement of derivations; (e) every byte 0..255 and every byte pair inside each token class; oracle: no panic, accept iff the reference recursive-descent recogniser of the README grammar accepts, AST equals the derivation, String() equals the input with blanks normalised, Parse(String()) gives the same structure and String() is idempotent; non-trivial = accepted string"
 	r.Assumptions = []string{"strings on which the README character classes and the lexer's differ ('$' in identifiers; ~ @ ! & ' ; % = inside expressions) get no accept/reject verdict (totality and fix-point are still checked); counted as undetermined", "termination is observed per call, not proved"}
 	L, T := 5, 8
 	r.SetBudget(80 * time.Second)
@@ -276,6 +276,25 @@ func c06Run(r *core.Run) {
 	r.Bounds["characters"] = chars
 	r.Bounds["tokens"] = c06Tokens
 
+	// (0) lengthy routes (up to a few KiB) between ordinary ones, on one parser and one goroutine: rendering is
+	// a function of the route, whatever was rendered before it
+	{
+		l := core.NewLocal()
+		p, _ := route.NewParser()
+		small := []string{"/a", "/{x}", "/a/?b", "/{y: /[0-9]+/}-{z}", "/{m: **, capture: 2}"}
+		for rep := 0; rep < 3; rep++ {
+			for _, n := range []int{100, 255, 256, 257, 300, 1000, 5000} {
+				for _, long := range []string{"/" + strings.Repeat("a", n), "/" + strings.Repeat("ab/", n/3) + "{x}", "/{y: /" + strings.Repeat("[ab]", n/4) + "/}"} {
+					c06Report(l, p, long, 1<<30, 0)
+					l.Extra["lengthy_routes"]++
+					for _, sm := range small {
+						c06Report(l, p, sm, 1<<30, 0)
+					}
+				}
+			}
+		}
+		r.Merge(l)
+	}
 	// (a) all strings: sharded by the first two characters
 	type shard struct{ prefix string }
 	var shards []string
